@@ -13,11 +13,6 @@ use rdp::nla::ntlm::{NTLMv2SecurityInterface, Ntlm};
 use rdp::nla::rc4::Rc4;
 use rdp::nla::sspi::{AuthenticationProtocol, GenericSecurityService};
 
-fn simple_upper(s: &str) -> String {
-    // user names: only characters whose upper-casing is one-to-one (what Windows does with the rest cannot be established offline)
-    s.chars().filter(|c| { let u: Vec<char> = c.to_uppercase().collect(); u.len() == 1 && *c != 'µ' && *c != 'ß' }).collect()
-}
-
 struct Exchange {
     client: Ntlm,
     verified: ntlm::Verified,
@@ -47,7 +42,8 @@ fn exchange_once(ctx_rc: &crate::harness::SharedCtx, prefix: &str, reuse: Option
         let mut cfg = ClientCfg::plain();
         let oem = ctx.chance("oem", 1, 6);
         cfg.domain = gen_string(&mut ctx, "domain", 40, !oem);
-        cfg.user = simple_upper(&gen_string(&mut ctx, "user", 64, !oem));
+        // any character: the verifier knows both mappings that UpperCase(User) stands for (refsrv::ntlm::upper_case_variants)
+        cfg.user = gen_string(&mut ctx, "user", 64, !oem);
         cfg.password = gen_string(&mut ctx, "password", 64, true);
         if ctx.chance("long_password", 1, 16) {
             let n = *ctx.pick("long_password_len", &[127usize, 128, 129, 255, 256, 257, 300, 1000]);
@@ -160,6 +156,30 @@ fn exchange_once(ctx_rc: &crate::harness::SharedCtx, prefix: &str, reuse: Option
         Ok(v) => {
             if v.user != cfg.user || v.domain != cfg.domain {
                 return Err(viol(&format!("{}/identity", prefix), "user-or-domain", format!("token names {:?}\\{:?}, configured {:?}\\{:?}", v.domain, v.user, cfg.domain, cfg.user)));
+            }
+            if v.upper_variants > 1 && !oem {
+                // the user name has two readings of UpperCase(User) and the verifier takes either; an account data base
+                // holds one: the same account reached from the password and from its NT hash must use the same one
+                ctx_rc.borrow_mut().probe("user_name_with_two_upper_case_readings");
+                rdp::model::rnd::verif::install(Some(Box::new(|n| vec![0x5a; n])));
+                let (d, u, pw) = (cfg.domain.clone(), cfg.user.clone(), cfg.password.clone());
+                let ch3 = challenge.clone();
+                let r = guard(move || {
+                    let mut twin = if use_hash { Ntlm::new(d, u, pw) } else { Ntlm::from_hash(d, u, &nt) };
+                    let n = twin.create_negotiate_message();
+                    let a = twin.read_challenge_message(&ch3);
+                    (n, a)
+                });
+                rdp::model::rnd::verif::install(None);
+                if let Ok((Ok(n2), Ok(a2))) = r {
+                    if let (Ok(neg2), Ok(auth2)) = (ntlm::parse_negotiate(&n2), ntlm::parse_authenticate(&a2)) {
+                        match ntlm::verify_authenticate(&neg2, &challenge, &nla.challenge_cfg, &auth2, &nt) {
+                            Ok(v2) if v2.upper_variant == v.upper_variant => {}
+                            Ok(_) => return Err(viol(&format!("{}/hash-and-password-differ", prefix), "upper-case", format!("user {:?}: the proof made from the password and the proof made from its NT hash use different readings of UpperCase(User); no account data base verifies both", cfg.user))),
+                            Err(e) => return Err(viol(&format!("{}/verifier-rejects", prefix), e.split(':').next().unwrap_or("?"), format!("independent MS-NLMP verification of the other mode (hash mode {}) failed: {}", !use_hash, e))),
+                        }
+                    }
+                }
             }
             Ok((client, v, cfg, use_hash))
         }
